@@ -66,6 +66,10 @@ package core
 //@     invariant forall i int :: 0 <= i && i < len(allNodes) ==> usable(allNodes[i])
 //@     invariant forall i int :: 0 <= i && i < len(allNodes) ==> (str_contains(allNodes[i].Flags, "master") || str_contains(allNodes[i].Flags, "slave"))
 
+// What isChanged compares between two topology descriptions, per node: address and role, and for a master also
+// its slot ranges (fmtv: the text of the range list, an uninterpreted function of the list's elements).
+//@ define nodefp(n) = ite(n.Role == Master, s_cat(n.Addr, s_cat("#", s_cat(itoa(int(n.Role)), s_cat("#", fmtv(n.Slots))))), s_cat(n.Addr, s_cat("#", itoa(int(n.Role)))))
+
 //@ func ClusterNodes.isChanged
 //@   props C14
 //@   modifies c.lastServerNames
@@ -73,6 +77,8 @@ package core
 //@   loop 0
 //@     modifies nothing
 //@     invariant 0 <= rangeindex + 1 && rangeindex + 1 <= len(allNodes) && (serverNames == nil || sameback(serverNames))
+//@     invariant len(serverNames) == rangeindex + 1
+//@     invariant[fingerprint@C14] forall k int :: (0 <= k && k < len(serverNames)) ==> serverNames[k] == nodefp(allNodes[k])
 
 //@ func ClusterNodes.setServer
 //@   props C14
